@@ -8,6 +8,8 @@ import Mathlib.RingTheory.Polynomial.Chebyshev
 import Mathlib.Analysis.Calculus.Deriv.Polynomial
 import Mathlib.Algebra.Polynomial.Sequence
 import Mathlib.Algebra.Polynomial.Roots
+import Mathlib.LinearAlgebra.FiniteDimensional.Basic
+import Mathlib.LinearAlgebra.Matrix.ToLin
 import Mathlib.Tactic
 
 namespace Lemmas.ChebyshevModel
@@ -443,5 +445,159 @@ theorem mem_span_Tbar_onesided (M : ℕ) (p : ℝ[X]) (hdeg : p.natDegree ≤ M)
   apply Submodule.smul_mem
   apply Submodule.subset_span
   exact ⟨i + 1, ⟨by omega, by omega⟩, rfl⟩
+
+/-! ### derivative of an expansion; uniqueness of the coefficients -/
+
+theorem derivative_chebPoly_eval (d : Dir) (e : Bool) (len : ℕ) (c : List ℝ) (x : ℝ) :
+    (derivative (chebPoly d e len c)).eval x
+      = Model.Poly.sum (0 : ℝ) (List.zipWith (· * ·)
+          ((orders d e len).map (fun n => derivEntry (restrictionOf d e) n x)) c) := by
+  rw [zipWith_mul_map_comm, sum_eq_list_sum, chebPoly, map_list_sum, eval_listSum]
+  congr 1
+  generalize orders d e len = os
+  induction c generalizing os with
+  | nil => simp
+  | cons a c ih =>
+    cases os with
+    | nil => simp
+    | cons n os => simp [derivative_Tbar]
+
+/-- `chebyshevDeriv · c` gives the exact derivative of the expansion at every node of the complete
+grid (boundary nodes included) -/
+theorem hasDerivAt_evalChebyshev (d : Dir) (e : Bool) (len : ℕ) (c : List ℝ) (x : ℝ) :
+    HasDerivAt (fun y => evalChebyshev (0 : ℝ) 1 2 d e len c y)
+      (Model.Poly.sum (0 : ℝ) (List.zipWith (· * ·)
+          ((orders d e len).map (fun n => derivEntry (restrictionOf d e) n x)) c)) x := by
+  rw [← derivative_chebPoly_eval]
+  refine ((chebPoly d e len c).hasDerivAt x).congr_of_eventuallyEq
+    (Filter.Eventually.of_forall fun y => ?_)
+  exact evalChebyshev_exact d e len c y
+
+theorem zipWith_sub_sum (t : ℕ → ℝ) (c c' : List ℝ) (os : List ℕ) (h : c.length = c'.length) :
+    (List.zipWith (fun cj n => cj * t n) (List.zipWith (· - ·) c c') os).sum
+      = (List.zipWith (fun cj n => cj * t n) c os).sum
+        - (List.zipWith (fun cj n => cj * t n) c' os).sum := by
+  induction c generalizing c' os with
+  | nil => cases c' <;> simp_all
+  | cons a c ih =>
+    cases c' with
+    | nil => simp at h
+    | cons a' c' =>
+      cases os with
+      | nil => simp
+      | cons n os =>
+        simp only [List.length_cons, Nat.add_right_cancel_iff] at h
+        simp only [List.zipWith_cons_cons, List.sum_cons, ih c' os h]
+        ring
+
+theorem evalChebyshev_sub (d : Dir) (e : Bool) (len : ℕ) (c c' : List ℝ) (h : c.length = c'.length)
+    (x : ℝ) :
+    evalChebyshev (0 : ℝ) 1 2 d e len (List.zipWith (· - ·) c c') x
+      = evalChebyshev (0 : ℝ) 1 2 d e len c x - evalChebyshev (0 : ℝ) 1 2 d e len c' x := by
+  simp only [evalChebyshev, sum_eq_list_sum]
+  exact zipWith_sub_sum _ c c' _ h
+
+/-- **Uniqueness of the Chebyshev coefficients**: two coefficient vectors with the same nodal values
+coincide -/
+theorem chebyshevMatrix_solution_unique (d : Dir) (e : Bool) (xs : List ℝ) (hnd : xs.Nodup)
+    (hfirst : e = false → d ≠ .pp → xs.head? = some (-1))
+    (hlast : e = false → xs.getLast? = some 1)
+    (c c' : List ℝ) (hc : c.length = (orders d e xs.length).length)
+    (hc' : c'.length = (orders d e xs.length).length)
+    (h : mulVec (0 : ℝ) (chebyshevMatrix 1 2 d e xs) c
+      = mulVec (0 : ℝ) (chebyshevMatrix 1 2 d e xs) c') :
+    c = c' := by
+  have hlen : c.length = c'.length := hc.trans hc'.symm
+  have h0 : mulVec (0 : ℝ) (chebyshevMatrix 1 2 d e xs) (List.zipWith (· - ·) c c')
+      = List.replicate (kept d e xs).length 0 := by
+    rw [mulVec_chebyshevMatrix, mulVec_chebyshevMatrix] at h
+    rw [mulVec_chebyshevMatrix]
+    rw [List.eq_replicate_iff]
+    refine ⟨by simp, ?_⟩
+    intro b hb
+    obtain ⟨x, hx, rfl⟩ := List.mem_map.mp hb
+    rw [evalChebyshev_sub d e _ c c' hlen]
+    have := List.map_inj_left.mp h x hx
+    linarith
+  have hz := chebyshevMatrix_injective d e xs hnd hfirst hlast _ (by simp [← hlen, hc]) h0
+  apply List.ext_getElem hlen
+  intro i h1 h2
+  have hi : i < (List.zipWith (· - ·) c c').length := by simp; omega
+  have := congrArg (fun l : List ℝ => l[i]?) hz
+  simp only [List.getElem?_replicate] at this
+  rw [List.getElem?_eq_getElem hi] at this
+  simp only [List.getElem_zipWith, hi, if_true, Option.some.injEq] at this
+  linarith
+
+/-! ### existence of the Chebyshev coefficients (surjectivity of the square matrix) -/
+
+theorem kept_length (d : Dir) (e : Bool) (xs : List ℝ) :
+    (kept d e xs).length = xs.length - minOrder (restrictionOf d e) := by
+  cases d <;> cases e <;> simp [kept, keptRange, minOrder, restrictionOf] <;> omega
+
+theorem evalChebyshev_eq_finset_sum (d : Dir) (e : Bool) (len : ℕ) (c : List ℝ)
+    (hc : c.length = (orders d e len).length) (x : ℝ) :
+    evalChebyshev (0 : ℝ) 1 2 d e len c x = ∑ j ∈ Finset.range c.length,
+      c.getD j 0 * (Tbar (restrictionOf d e) (j + minOrder (restrictionOf d e))).eval x := by
+  rw [evalChebyshev_exact, chebPoly_eq_finset_sum d e len c hc, eval_finsetSum]
+  simp [eval_smul]
+
+/-- **Existence of Chebyshev coefficients for any nodal values** -/
+theorem chebyshevMatrix_surjective (d : Dir) (e : Bool) (xs : List ℝ) (hnd : xs.Nodup)
+    (hfirst : e = false → d ≠ .pp → xs.head? = some (-1))
+    (hlast : e = false → xs.getLast? = some 1)
+    (v : List ℝ) (hv : v.length = (kept d e xs).length) :
+    ∃ c : List ℝ, c.length = (orders d e xs.length).length ∧
+      mulVec (0 : ℝ) (chebyshevMatrix 1 2 d e xs) c = v := by
+  set k := (orders d e xs.length).length with hkdef
+  have hk : (kept d e xs).length = k := by rw [kept_length, hkdef, orders_length]
+  let A : Matrix (Fin k) (Fin k) ℝ := fun i j =>
+    (Tbar (restrictionOf d e) (j + minOrder (restrictionOf d e))).eval ((kept d e xs).getD i 0)
+  -- rows of the list product in terms of `A`
+  have hrow : ∀ (f : Fin k → ℝ) (i : Fin k),
+      evalChebyshev (0 : ℝ) 1 2 d e xs.length (List.ofFn f) ((kept d e xs).getD i 0)
+        = A.mulVec f i := by
+    intro f i
+    rw [evalChebyshev_eq_finset_sum d e _ _ (by simp [hkdef])]
+    simp only [List.length_ofFn]
+    rw [Finset.sum_range]
+    simp only [Matrix.mulVec, dotProduct, A]
+    apply Finset.sum_congr rfl
+    intro j _
+    rw [List.getD_eq_getElem?_getD, List.getElem?_ofFn]
+    simp [mul_comm]
+  have hmul : ∀ f : Fin k → ℝ, mulVec (0 : ℝ) (chebyshevMatrix 1 2 d e xs) (List.ofFn f)
+      = List.ofFn (A.mulVec f) := by
+    intro f
+    rw [mulVec_chebyshevMatrix]
+    apply List.ext_getElem
+    · simp [hk]
+    · intro i h1 h2
+      have hi : i < k := by simpa using h2
+      have := hrow f ⟨i, hi⟩
+      simp only [List.getElem_map, List.getElem_ofFn]
+      rw [← this]
+      congr 1
+      simp only [List.getD_eq_getElem?_getD]
+      rw [List.getElem?_eq_getElem (by omega)]
+      rfl
+  have hinj : Function.Injective (Matrix.mulVecLin A) := by
+    rw [injective_iff_map_eq_zero]
+    intro f hf
+    have hf' : A.mulVec f = 0 := hf
+    have h0 := chebyshevMatrix_injective d e xs hnd hfirst hlast (List.ofFn f) (by simp [hkdef])
+      (by rw [hmul, hf', hk]; apply List.ext_getElem <;> simp)
+    funext j
+    have := congrArg (fun l : List ℝ => l[(j : ℕ)]?) h0
+    simpa using this
+  have hsurj : Function.Surjective (Matrix.mulVecLin A) := LinearMap.injective_iff_surjective.mp hinj
+  obtain ⟨f, hf⟩ := hsurj (fun i : Fin k => v.getD i 0)
+  refine ⟨List.ofFn f, by simp [hkdef], ?_⟩
+  have hf' : A.mulVec f = fun i : Fin k => v.getD i 0 := hf
+  rw [hmul, hf']
+  apply List.ext_getElem
+  · simp [hv, hk]
+  · intro i h1 h2
+    simp [h2]
 
 end Lemmas.ChebyshevModel
